@@ -932,7 +932,10 @@ PROPS = {
     "C02": dict(
         prop_file="Properties/C02.v",
         check_module="C02Check",
-        theorems={t: [] for t in ["C02_gc_preserves_reachable", "C02_mark_sound", "C02_mark_terminates"]},
+        theorems={t: [] for t in ["C02_gc_preserves_reachable", "C02_mark_sound", "C02_mark_terminates",
+                                  "C02_vm_initial_states_closed", "C02_vm_step_keeps_closed",
+                                  "C02_vm_run_keeps_closed", "C02_collection_between_instructions",
+                                  "C02_collection_after_run", "C02_operands_reachable"]},
         n_quick=420, n_thorough=3000,
         gates=["prog=host_table_6", "prog=host_table_13", "prog=host_table_29", "sched=every", "sched=single", "sched=subset", "gc_case", "prog=closures", "prog=stdlib_object_keys",
                "prog=inline_closure", "prog=overwrite_equal_keys"],
@@ -950,8 +953,11 @@ PROPS = {
             "heap dump (cfg feature, additive); the audit and the outcome comparison are computed natively by the "
             "harness and reported through the checker as schedule cases"],
         assumptions=[
-            "that every temporary an instruction or native function holds is rooted at every allocation point is "
-            "checked by the schedules on the program library, not proved (no VM-level theorem yet)",
+            "that every temporary an instruction or native function holds is rooted at every allocation point "
+            "(collections in the MIDDLE of an instruction) is checked by the schedules on the program library, not "
+            "proved; proved at the VM level: a collection at any instruction BOUNDARY of any execution keeps "
+            "everything reachable from the VM's roots, and every operand of the next instruction is reachable "
+            "(VmGcRoots/VmGcClosed/VmGcReach/VmGcLink.v)",
             "the consequences of a use after free in the real address space are not modelled; the audit stops at "
             "the first dangling reference, poisoning makes stale uses change the outcome",
         ],
